@@ -84,6 +84,17 @@ def id_of(a):
 
 
 # ---------------------------------------------------------------------------- implementation harness
+class _CryptoProxy:
+    def __init__(self, crypto, dh):
+        self._crypto, self._dh = crypto, dh
+
+    def generate_diffie_secret(self):
+        return self._dh
+
+    def __getattr__(self, name):
+        return getattr(self._crypto, name)
+
+
 class Node:
     """One node: real TunnelEndpoint over a recording endpoint, real TunnelCommunity, real overlays."""
 
@@ -151,6 +162,11 @@ class Node:
             self.keys = tc.crypto.generate_session_keys(b"k" * 32)
         orig_create, orig_send_data = tc.create_circuit, tc.send_data
         node = self
+        if not self.full:
+            # the pre-built node replays hundreds of thousands of histories: one Diffie-Hellman secret for all
+            # CREATE cells (key agreement is not what is examined here)
+            dh = tc.crypto.generate_diffie_secret()
+            tc.crypto = _CryptoProxy(tc.crypto, dh)
 
         def create_circuit(goal_hops, *args, **kwargs):
             fl = kwargs.get("exit_flags")
@@ -471,6 +487,20 @@ def bytes_code(b):
     return len(b) + 256 * (b[2] if len(b) > 2 else 0) + 65536 * (b[-1] if b else 0)
 
 
+_full = {}
+
+
+def bytes_full(b):
+    c = _full.get(b)
+    if c is None:
+        c = len(b)
+        for x in b:
+            c = mix(c, x)
+        if len(_full) < 200000:
+            _full[b] = c
+    return c
+
+
 def mix_zs(h, l):
     h = mix(h, len(l))
     for x in l:
@@ -482,25 +512,25 @@ def mix_hop(h, x):
     return mix_zs(mix(h, x[0]), x[1])
 
 
-def mix_out(h, o):
+def mix_out(bc, h, o):
     k = o[0]
     if k == "Raw":
-        return mix(mix(mix(h, 1), o[1]), bytes_code(o[2]))
+        return mix(mix(mix(h, 1), o[1]), bc(o[2]))
     if k == "Tunnel":
-        return mix(mix(mix(mix(mix(mix(h, 2), o[1]), o[2]), o[3]), o[4]), bytes_code(o[5]))
+        return mix(mix(mix(mix(mix(mix(h, 2), o[1]), o[2]), o[3]), o[4]), bc(o[5]))
     if k == "CreateCircuit":
         return mix_zs(mix(mix(h, 3), o[1]), o[2])
-    return mix(mix(mix(h, {"Queued": 4, "Evicted": 5, "Dropped": 6}[k]), o[1]), bytes_code(o[2]))
+    return mix(mix(mix(h, {"Queued": 4, "Evicted": 5, "Dropped": 6}[k]), o[1]), bc(o[2]))
 
 
-def mix_st(h, s):
+def mix_st(bc, h, s):
     h = mix(h, len(s["settings"]))
     for k, v in s["settings"]:
-        h = mix(mix(h, bytes_code(k)), 1 if v else 0)
+        h = mix(mix(h, bc(k)), 1 if v else 0)
     h = mix(mix(h, 1 if s["attached"] else 0), s["hops"])
     h = mix(h, len(s["queue"]))
     for a, p in s["queue"]:
-        h = mix(mix(h, a), bytes_code(p))
+        h = mix(mix(h, a), bc(p))
     h = mix(h, len(s["circuits"]))
     for c in s["circuits"]:
         h = mix(mix(h, c[0]), 1 if c[1] else 0)
@@ -512,17 +542,18 @@ def mix_st(h, s):
     return mix(h, s["next_id"])
 
 
-def path_digest(steps, cidx):
-    """mirror of M07.path_digest / dfs along one path: per step the outputs, |queue|, |circuits|; full state at the end"""
+def path_digest(steps, cidx, bc=bytes_code):
+    """mirror of M07.history_digest / dfs along one path: per step the outputs, |queue|, |circuits|; the complete
+    state at the end"""
     h = 0
     for st in steps:
         h = mix(h, 7)
         for o in step_outs(st):
             if o[0] == "Tunnel":
                 o = (o[0], o[1], cidx.get(o[2], -7), o[3], o[4], o[5])
-            h = mix_out(h, o)
+            h = mix_out(bc, h, o)
         h = mix(mix(h, len(st["post"]["queue"])), len(st["post"]["circuits"]))
-    return mix_st(h, steps[-1]["post"]) if steps else mix_st(h, EMPTY_STATE)
+    return mix_st(bc, h, steps[-1]["post"] if steps else EMPTY_STATE)
 
 
 EMPTY_STATE = {"settings": [], "attached": False, "hops": 0, "queue": [], "circuits": [], "next_id": 0}
@@ -608,7 +639,7 @@ class Oracle:
             if on:
                 if raws:
                     self.bad("anon/raw-send", "step %d: packet %s of an anonymized overlay handed to the raw socket (to %s)" % (
-                        i, p.hex(), raws[0][1]))
+                        i, raws[0][2].hex(), raws[0][1]))
                 if tunnels:
                     want = [(a, p)] + list(q0)
                     got = [(e[3], e[5]) for e in tunnels]
@@ -704,7 +735,7 @@ async def _work_cases(cases):
     for (full, ops) in cases:
         steps, cidx = run_ops(ops, full)
         viol = Oracle().judge(steps, cidx)
-        out.append((case_coq(steps, cidx), viol, summarize(steps)))
+        out.append((case_coq(steps, cidx) + (str(path_digest(steps, cidx, bytes_full)),), viol, summarize(steps)))
     await asyncio.sleep(0)
     return out
 
@@ -786,7 +817,7 @@ def families(quick):
     fd = {"name": "D/from-init", "pre": [],
           "alpha": [("send", 7, PKT_A, True, EXIT_H), ("send", 8, PKT_P, False, None), ("addhop", 0, EXIT_AD, [4]),
                     ("close", 0), ("attachd",), ("detach",), ("setanon", PFX_A, True), ("setanon", PFX_A, False)],
-          "depth": 5 if quick else 6, "split": 1 if quick else 2}
+          "depth": 5, "split": 1}
     return [fa, fb, fc, fd]
 
 
@@ -996,33 +1027,62 @@ def run_notify_impl(listeners, from_tunnel, open_=True):
     n.inner.opened = open_
     objs = []
     for (i, an) in listeners:
-        o = L(n.ep, i)
+        o = L(n.ep, abs(i))
         if an is not None:
             o.anonymize = an
         objs.append(o)
-        n.ep.add_listener(o)
+        if i < 0:       # registered for the packet's prefix only (as a Community does)
+            n.ep.add_prefix_listener(o, PFX_A)
+        else:
+            n.ep.add_listener(o)
     n.ep.notify_listeners((addr_of(3), PKT_A), from_tunnel) if from_tunnel is not None else n.ep.notify_listeners((addr_of(3), PKT_A))
     return got
 
 
 # ---------------------------------------------------------------------------- shrinking a failing history
-def shrink(ops, full, key):
+def shrink(ops, full, key, budget_s=25.0):
+    """smallest history found (within the time budget) on which the oracle still reports `key`; -> (ops, what)"""
+    t_end = time.time() + budget_s
+
     def fails(o):
         try:
             steps, cidx = run_ops(o, full)
         except Exception:  # noqa
-            return False
-        return any(k == key for k, _ in Oracle().judge(steps, cidx))
+            return None
+        for k, what in Oracle().judge(steps, cidx):
+            if k == key:
+                return what
+        return None
     cur = list(ops)
-    changed = True
-    while changed and len(cur) > 1:
-        changed = False
-        for i in range(len(cur) - 1, -1, -1):
-            cand = cur[:i] + cur[i + 1:]
-            if fails(cand):
-                cur = cand
-                changed = True
-    return cur
+    what = fails(cur)
+    if what is None:
+        return cur, None
+    # cut everything after the step that violates
+    lo, hi = 1, len(cur)
+    while lo < hi and time.time() < t_end:
+        mid = (lo + hi) // 2
+        w = fails(cur[:mid])
+        if w is not None:
+            hi, what = mid, w
+        else:
+            lo = mid + 1
+    cur = cur[:hi]
+    # remove chunks, then single operations
+    chunk = max(1, len(cur) // 2)
+    while chunk >= 1 and time.time() < t_end:
+        i = 0
+        progress = False
+        while i < len(cur) and time.time() < t_end:
+            cand = cur[:i] + cur[i + chunk:]
+            w = fails(cand) if cand else None
+            if w is not None:
+                cur, what, progress = cand, w, True
+            else:
+                i += chunk
+        if chunk == 1 and not progress:
+            break
+        chunk = chunk // 2 if chunk > 1 else (1 if progress else 0)
+    return cur, what
 
 
 def ops_json(ops):
@@ -1045,19 +1105,20 @@ def ops_from_json(js):
 
 
 def report(ctx, ops, full, viol):
-    seen = set()
+    """one shrunk witness per violation key and run; further cases with the same key are only counted"""
+    seen = ctx.extra.setdefault("violation_counts", {})
     for key, what in viol:
-        if key in seen:
+        seen[key] = seen.get(key, 0) + 1
+        if seen[key] > 1:
             continue
-        seen.add(key)
         loop = asyncio.new_event_loop()
         asyncio.set_event_loop(loop)
         try:
-            small = loop.run_until_complete(_shrink_async(ops, full, key))
+            small, what2 = loop.run_until_complete(_shrink_async(ops, full, key))
         finally:
             loop.run_until_complete(asyncio.sleep(0))
             loop.close()
-        ctx.violation(key, what + " [history of %d ops, shrunk from %d]" % (len(small), len(ops)),
+        ctx.violation(key, (what2 or what) + " [history of %d ops, shrunk from %d]" % (len(small), len(ops)),
                       {"kind": "hist", "full": full, "ops": ops_json(small), "key": key})
 
 
@@ -1128,22 +1189,22 @@ def _stage_c(ctx, r, pool, have_model):
     async_enum = pool.map_async(work_enum, enum_jobs, chunksize=1)
 
     # ---- generated histories (pre-built node): random mix, overflow
-    nh = 1500 if ctx.quick else 30000
+    nh = 1500 if ctx.quick else 6000
     cases = []
     for i in range(nh):
         n = r.choice([3, 6, 10, 16, 30]) if i % 20 else 60
         cases.append((False, gen_history(r, n) if i % 2 else gen_scenario(r, max(2, n // 2))))
-    for i in range(12 if ctx.quick else 120):
+    for i in range(12 if ctx.quick else 60):
         cases.append((False, gen_overflow(r, i % 4)))
     # ---- histories with real overlays (full construction per case)
-    for i in range(400 if ctx.quick else 6000):
+    for i in range(400 if ctx.quick else 2000):
         cases.append((True, gen_full(r, r.choice([4, 8, 14, 25]))))
     chunks = [cases[i:i + 50] for i in range(0, len(cases), 50)]
     results = [x for part in pool.map(work_cases, chunks, chunksize=1) for x in part]
     tm["impl_histories"] = round(time.time() - t0, 1)
-    coq_cases, kinds = [], {}
+    coq_cases, full_obs, kinds = [], [], {}
     dist = {"raw": 0, "tunnel": 0, "create": 0, "hist_with_tunnel": 0, "hist_queue_full": 0}
-    for (full, ops), ((c_ops, c_exp), viol, summ) in zip(cases, results):
+    for (full, ops), ((c_ops, c_exp, c_dig), viol, summ) in zip(cases, results):
         for op in ops:
             kinds[op[0]] = kinds.get(op[0], 0) + 1
         ctx.count(("hist", full, tuple(map(tuple_op, ops))), nontrivial=summ[1] > 0 or summ[3] > 0)
@@ -1154,19 +1215,27 @@ def _stage_c(ctx, r, pool, have_model):
         dist["hist_queue_full"] += 1 if summ[3] >= QUEUE_BOUND else 0
         if viol:
             report(ctx, ops, full, viol)
-        coq_cases.append((c_ops, c_exp))
-    for (full, ops), ((c_ops, c_exp), _, summ) in list(zip(cases, results))[:3]:
+        coq_cases.append((c_ops, c_dig))
+        full_obs.append(c_exp)
+    for (full, ops), (_, _, summ) in list(zip(cases, results))[:3]:
         ctx.sample({"history": ops_json(ops)[:12], "real_overlays": full, "raw/tunnel/create/maxqueue": summ})
     ctx.extra["op_mix"] = kinds
     ctx.extra["distribution"] = dist
     if have_model:
-        mism, errs = coqrun.eval_mismatches(IMPORTS, "run_case", "obs_eqb", coq_cases, os.path.join(ctx.scratch, "hist"),
-                                            ctype="list op * obs", shard=120 if ctx.quick else 400, jobs=14, preamble=PREAMBLE)
+        # the model's digest of the whole history (all outputs, all byte strings, final state) against the
+        # same digest of what the implementation did
+        mism, errs = eval_cases("run_case_digest", "Z.eqb", coq_cases, os.path.join(ctx.scratch, "hist"),
+                                "list op * Z", 150 if ctx.quick else 250)
         for e in errs:
             ctx.broke("model evaluation failed (histories)", e)
-        for i in mism[:8]:
+        for n, i in enumerate(mism[:8]):
+            model_says = ""
+            if n == 0:
+                model_says = coqrun.eval_terms(IMPORTS, ["run_case %s" % coq_cases[i][0]], os.path.join(ctx.scratch, "diag"),
+                                               preamble=PREAMBLE)[-3000:]
             ctx.broke("correspondence: history differs between model and implementation",
-                      json.dumps({"full": cases[i][0], "ops": ops_json(cases[i][1]), "impl": coq_cases[i][1][:1500]}))
+                      json.dumps({"full": cases[i][0], "ops": ops_json(cases[i][1]), "impl": full_obs[i][:1500],
+                                  "model": model_says}))
         ctx.coverage["traces_validated_against_impl"] += len(coq_cases) - len(mism)
 
     tm["model_histories"] = round(time.time() - t0, 1)
@@ -1191,6 +1260,19 @@ def _stage_c(ctx, r, pool, have_model):
                           {"kind": "notify", "listeners": [[i, an] for i, an in ls], "from_tunnel": ft})
         ncases.append(("([%s], %s)" % ("; ".join("(%d, %s)" % (i, "None" if an is None else "Some " + cb(an)) for i, an in ls), cb(eff)),
                        "[" + "; ".join(str(i) for i in got) + "]"))
+    # listeners registered per prefix (which of them the endpoint considers differs between versions of
+    # notify_listeners; that none with the wrong flag is served does not)
+    pjobs = []
+    for _ in range(60 if ctx.quick else 400):
+        ls = [((i + 1) * r.choice([1, -1]), r.choice([None, False, True])) for i in range(r.randrange(1, 7))]
+        pjobs.append((ls, r.choice([False, True]), True))
+    for (ls, ft, _), got in zip(pjobs, pool.apply(work_notify_batch, (pjobs,))):
+        allowed = [abs(i) for (i, an) in ls if bool(an) == ft]
+        ctx.count(("notify-prefixed", tuple(ls), ft), nontrivial=True)
+        if any(i not in allowed for i in got):
+            ctx.violation("delivery/wrong-origin", "notify_listeners(from_tunnel=%s) over listeners %s (negative: prefix-registered) "
+                          "delivered to %s" % (ft, ls, got),
+                          {"kind": "notify", "listeners": [[i, an] for i, an in ls], "from_tunnel": ft, "safety_only": True})
     closed = ngot[-1]
     if closed:
         ctx.violation("delivery/closed-endpoint", "delivery on a closed endpoint to %s" % closed,
@@ -1255,7 +1337,7 @@ def locate_enum_mismatch(ctx, job):
             ops = pre + [impl_op(alpha[i]) for i in w]
             meta.append(ops)
     res = [x for x in work_cases([(False, o) for o in meta])]
-    cases = [c for (c, _, _) in res]
+    cases = [(c[0], c[1]) for (c, _, _) in res]
     mism, errs = coqrun.eval_mismatches(IMPORTS, "run_case", "obs_eqb", cases, os.path.join(ctx.scratch, "loc"),
                                         ctype="list op * obs", shard=200, jobs=8, preamble=PREAMBLE)
     if mism:
@@ -1274,9 +1356,10 @@ def replay(path):
         if c.get("kind") == "notify":
             ls = [(i, an) for i, an in c["listeners"]]
             got = work_notify(ls, c["from_tunnel"], not c.get("closed", False))
-            want = [] if c.get("closed") else [i for (i, an) in ls if bool(an) == bool(c["from_tunnel"])]
-            print("notify_listeners(from_tunnel=%s) listeners=%s -> delivered %s, expected %s" % (c["from_tunnel"], ls, got, want))
-            rc |= int(got != want)
+            want = [] if c.get("closed") else [abs(i) for (i, an) in ls if bool(an) == bool(c["from_tunnel"])]
+            print("notify_listeners(from_tunnel=%s) listeners=%s -> delivered %s, %s %s" % (
+                c["from_tunnel"], ls, got, "allowed" if c.get("safety_only") else "expected", want))
+            rc |= int(any(i not in want for i in got) if c.get("safety_only") else got != want)
             continue
         ops = ops_from_json(c["ops"])
         (_, viol, summ), = work_cases([(c.get("full", False), ops)])
@@ -1307,3 +1390,38 @@ def work_notify_batch(jobs):
 
 def work_notify(ls, ft, open_):
     return work_notify_batch([(ls, ft, open_)])[0]
+
+
+# ---------------------------------------------------------------------------- evaluation inside Coq, compact case files
+_BZ = __import__("re").compile(r"\(BZ (\d+)%nat 0x([0-9a-f]+)\)")
+
+
+def eval_cases(run, eqb, cases, scratch, ctype, shard, jobs=14, timeout=900):
+    """coqrun.eval_mismatches with one twist: inside a shard every distinct byte string is defined once
+    (Definition b<i> := BZ ...) and referred to by name, which keeps the case terms small."""
+    mism, errs = [], []
+    groups = []
+    for start in range(0, len(cases), shard):
+        part = cases[start:start + shard]
+        names = {}
+
+        def sub(m):
+            key = (m.group(1), m.group(2))
+            if key not in names:
+                names[key] = "b%d" % len(names)
+            return names[key]
+        part2 = [(_BZ.sub(sub, c), _BZ.sub(sub, e)) for c, e in part]
+        pre = PREAMBLE + "".join("Definition %s : bytes := Eval vm_compute in BZ %s%%nat 0x%s.\n" % (n, k[0], k[1])
+                                 for k, n in names.items())
+        groups.append((start, part2, pre))
+    from concurrent.futures import ThreadPoolExecutor
+
+    def one(g):
+        start, part2, pre = g
+        return start, coqrun.eval_mismatches(IMPORTS, run, eqb, part2, os.path.join(scratch, "s%d" % start), ctype=ctype,
+                                             shard=len(part2), jobs=1, timeout=timeout, preamble=pre)
+    with ThreadPoolExecutor(max_workers=jobs) as ex:
+        for start, (m, e) in ex.map(one, groups):
+            mism.extend(start + i for i in m)
+            errs.extend(e)
+    return sorted(mism), errs
